@@ -116,7 +116,7 @@ def promote(d):
     meta = {
         'id': name, 'breaks_property': name.split('-')[0],
         'summary': (notes.splitlines()[0].lstrip('# ').strip() if notes else ''),
-        'what_breaks': section('Wh(at|ich)[^\n]*break'),
+        'what_breaks': section('Wh(?:at|ich)[^\n]*break'),
         'needs_to_manifest': section('What it needs'),
         'confirmed': {'base_commit': c['base'], 'applies': True, 'builds': True, 'stable_suite_of_packages': c['pkgs'],
                       'stable_tests_not_passing': [], 'demo_with_change': 'FAIL', 'demo_without_change': 'PASS', 'demo_cmd': c.get('demo_cmd')},
